@@ -33,8 +33,10 @@ def C13():
                       "inputs (d<=2), <= 5 (d=3), <= 4 (d=4) on every shape with that many inputs, {0,1,+inf} words, {0,1}^9 on "
                       "3x3 / 1x3x3 / 9, {0,1,2}^8 on 2x4 / 4x2 / 2x2x2, both conventions, both classes, every mask"),
             "thorough": ("structure: {1..9}, {1..5}^2, {1..5}^3, {1..4}^4, {1,2}^5 with 7 value patterns (persistence when <= 1300 "
-                         "cells, Z_2 Z_3 Z_5); values: weak orders of <= 7 inputs (d<=2), <= 6 (d=3,4), {0,1,+inf} words up to 8 "
-                         "inputs, {0,1}^12 and {0,1,2}^9..10 on the listed 2-d/3-d/4-d shapes"),
+                         "cells, Z_2 Z_3 Z_5); values: weak orders of <= 7 inputs (d<=2), <= 6 (d=3), <= 5 (d=4) on every shape "
+                         "with that many inputs, {0,1,+inf} words up to 8 inputs (d<=3; 6 in 4-d), {0,1}^n on 3x4 4x3 2x6 2x2x3 "
+                         "3x2x2 2x3x2 3x1x3 3x3x1 12 2x2x2x1 3x1x1x3 1x1x3x3 1x3x4, {0,1,2}^n on 3x3 2x4 4x2 2x5 5x2 9 2x2x2 "
+                         "1x3x3 1x2x2x2 2x1x2x2; both conventions, both classes, every mask"),
         },
         "assumptions": [
             "documented preconditions only: as many values as the product of the dimensions; +inf is the only non-finite value "
